@@ -22,7 +22,7 @@ def cdeep(t):
 def run(chk, tier):
     P = Prog("default")
     chk.configs.add("default")
-    for r in (r_zones, r_year_rule, r_reader_widths, r_writer, r_weekday, r_absint, r_flow):
+    for r in (r_zones, r_year_rule, r_reader_widths, r_writer, r_weekday, r_absint, r_flow, r_own_ranges):
         chk.guarded(r, P, tier)
     chk.assume("optional-part acceptance, comments, white-space runs and the values returned (the round trip) are NOT decided")
     return {
@@ -214,3 +214,17 @@ def r_flow(chk, P, tier):
         for name, ln, ok, dropped in rows:
             chk.expect(dropped == 0 and ok > 0, "%s: %s #%d" % (fn.split("::")[-1], name, [r_ for r_ in rows if r_[0] == name].index((name, ln, ok, dropped)) + 1),
                        "the value scanned by scan::%s (line %s) does not reach a Parsed setter on %d of %d successful paths" % (name, ln, dropped, ok + dropped), loc=P.loc(fn, ln))
+
+
+def r_own_ranges(chk, P, tier):
+    """range decisions on scanned values are made by the Parsed setters (checked in C14) and by the one bound the RFC gives; a reader that rejects a
+    scanned value on its own narrows the accepted language (and breaks the round trip for values the writer can produce)"""
+    from fmt_tables import own_value_rejections
+    chk.rule("ERR.own_ranges", "the readers reject a scanned VALUE on their own only where listed (strict RFC 3339: offset beyond 23:59 -> OUT_OF_RANGE); every other range decision is a Parsed setter's", floor=1)
+    allowed = {}
+    for fn in ('format::parse::parse_rfc2822',):
+        got = own_value_rejections(P, fn)
+        extra = got - allowed.get(fn, set())
+        missing = allowed.get(fn, set()) - got
+        chk.expect(not extra and not missing, fn.split("::")[-1], "%s rejects scanned values on its own: %s (allowed: %s)%s" % (fn, sorted(extra), sorted(allowed.get(fn, set())),
+                   "; expected rejection missing: %s" % sorted(missing) if missing else ""), loc=P.loc(fn))
